@@ -168,6 +168,8 @@ def _forward_ref(repo, ob, failure):
         (['<circle id="d" cxy="#a|v" r="3"/>', '<rect xy="#d|h" wh="2"/>', '<rect id="a" xy="10" wh="4"/>'], [2, 0, 1]),
         (['<line id="d" xy1="#a@br" x2="30" y2="30"/>', '<rect surround="#d"/>', '<rect id="a" xy="10" wh="4"/>'], [2, 0, 1]),
         (['<rect id="d" xy="#a|h" wh="4"/>', '<rect xy="#d|v" wh="2"/>', '<rect id="a" xy="10" wh="4"/>'], [2, 0, 1]),
+        (['<use id="t" href="#b" xy="30 40"/>', '<rect id="b" wh="10"/>', '<rect id="s" xy="#t|h 2" wh="4"/>'], [1, 0, 2]),
+        (['<use id="t" href="#b" xy="30 40"/>', '<rect id="s" cxy="#t@c" wh="4"/>', '<rect id="b" wh="10"/>'], [2, 0, 1]),
     ]
 
     def geom(out):
